@@ -111,6 +111,7 @@ structure SymMap where
   nameToClass : Std.HashMap String Nat := {}
   nameToDef : Std.HashMap String Nat := {}
   nameToMulticlass : Std.HashMap String Nat := {}
+  nameToDefset : Std.HashMap String Nat := {}
   /-- `file_to_symbol_list`, as (file, symbols) pairs -/
   fileToSymbolList : Array (Nat × Array SymbolId) := #[]
   /-- the hook log (`verif_hooks::define` / `reference`) -/
@@ -139,6 +140,7 @@ def var (sm : SymMap) (id : Nat) : Variable := sm.variableList[id]!
 def defset (sm : SymMap) (id : Nat) : Defset := sm.defsetList[id]!
 def multiclass (sm : SymMap) (id : Nat) : Multiclass := sm.multiclassList[id]!
 def findMulticlass (sm : SymMap) (name : String) : Option Nat := sm.nameToMulticlass[name]?
+def findDefset (sm : SymMap) (name : String) : Option Nat := sm.nameToDefset[name]?
 def defm (sm : SymMap) (id : Nat) : Defm := sm.defmList[id]!
 
 /-- `iter_class` (the `HashMap` iteration order of the real code is arbitrary) -/
@@ -225,6 +227,15 @@ def addRecord (sm : SymMap) (r : Record) (isGlobal : Bool) : Nat × SymMap :=
   let sm := if isGlobal then sm.pushFileSymbol r.defineLoc.file (.record id) else sm
   (id, sm)
 
+/-- `add_multiclass_def`: a def written inside a multiclass is outlined like a def but gets no entry in
+`name_to_def` -/
+def addMulticlassDef (sm : SymMap) (r : Record) : Nat × SymMap :=
+  let id := sm.recordList.size
+  let gid := sm.gidToSym.size
+  let sm := { sm with recordList := sm.recordList.push r, recordGid := sm.recordGid.push gid }
+  let sm := sm.logDefine (.record id) r.name r.defineLoc false
+  (id, sm.pushFileSymbol r.defineLoc.file (.record id))
+
 /-- `add_anonymous_def` -/
 def addAnonymousDef (sm : SymMap) (r : Record) : Nat × SymMap :=
   let id := sm.recordList.size
@@ -261,6 +272,10 @@ def addDefset (sm : SymMap) (d : Defset) : Nat × SymMap :=
   let sm := { sm with defsetList := sm.defsetList.push d, defsetGid := sm.defsetGid.push gid }
   let sm := sm.logDefine (.defset id) d.name d.defineLoc false
   (id, sm.pushFileSymbol d.defineLoc.file (.defset id))
+
+/-- `register_defset_name` -/
+def registerDefsetName (sm : SymMap) (id : Nat) : SymMap :=
+  { sm with nameToDefset := sm.nameToDefset.insert (sm.defsetList[id]!).name id }
 
 /-- `add_multiclass` -/
 def addMulticlass (sm : SymMap) (m : Multiclass) : Nat × SymMap :=
